@@ -83,6 +83,19 @@ def scn_threads(ctx):
         kept.append(f)
         d = None
         del f, d
+    if p.get("kept_failed"):
+        # a future that failed because the poll function raised - and the user keeps that future
+        res = Obj("poisoned")
+        res.poison = True
+        f = box[0].submit(lambda: 1)
+        sched.vsleep_until(sched.now() + 0.25)
+        for d in list(me.submitted):
+            finish(d, "value", res)
+        wait_done(f, sched.now() + 5)
+        kept.append(f)
+        d = None
+        res = None
+        del f, d, res
     t_act = [None]
 
     def actor():
@@ -248,6 +261,8 @@ def plan(tier, seed):
         if k == "retry":
             items.append(dict(scenario="threads", params=dict(kind=k, backoff=True), bounds=dict(P=1 if q else 2)))
         items.append(dict(scenario="threads", params=dict(kind=k, kept_cancelled=True), bounds=dict(P=1 if q else 2)))
+        if k == "poll":
+            items.append(dict(scenario="threads", params=dict(kind=k, kept_failed=True), bounds=dict(P=1 if q else 2)))
         items.append(dict(scenario="refs", params=dict(kind=k, n=2 if q else 3), bounds=dict(P=0)))
         items.append(dict(scenario="pending_outlives", params=dict(kind=k), bounds=dict(P=2 if q else 3)))
     return items
